@@ -210,7 +210,9 @@ def from_ir(e, env=None, atom=None):
         if k == 'num':
             v = x[1]
             if isinstance(v, float):
-                if v == int(v) and abs(v) != INF:
+                if v != v or abs(v) == INF:
+                    raise Unsupported('non-finite constant')
+                if v == int(v):
                     v = int(v)
                 else:
                     raise Unsupported('non-integer constant %r' % (v,))
@@ -345,8 +347,14 @@ def show(t):
 
 
 # ------------------------------------------------------------------------------------------ Fourier-Motzkin
+BUDGET = [0]
+
+
 def _feasible(cons):
     """cons: list of (coeffs dict atom->Fraction, const) meaning sum + const >= 0.  Rational feasibility."""
+    BUDGET[0] -= 1
+    if BUDGET[0] < 0:
+        raise Unsupported('proof budget exhausted')
     cons = [(dict(c), Fraction(k)) for c, k in cons]
     while True:
         # drop trivial, detect contradiction
@@ -493,9 +501,11 @@ def equivalent(t1, t2, domain=(), box=None, box_limit=200000):
 
 
 _EQ_CACHE = {}
+PROOF_BUDGET = [6000]     # Fourier-Motzkin feasibility calls per equivalence query
 
 
 def _equivalent(t1, t2, domain, box, box_limit):
+    BUDGET[0] = PROOF_BUDGET[0]
     ats = sorted(atoms(t1) | atoms(t2))
     # 1. look for a witness in a box (only constraints over the terms' own atoms restrict the search)
     sa = set(ats)
